@@ -41,12 +41,14 @@ Plan array_gen(const std::string &check, const std::string &tier, uint64_t seed,
     Plan plan;
     bool thorough = tier == "thorough";
     std::string id = check.substr(0, 3);
-    bool c05 = id == "C05", c06 = id == "C06", c11 = id == "C11";
+    bool c05 = id == "C05", c06 = id == "C06" || check.find("files") != std::string::npos, c11 = id == "C11";
+    bool c12 = id == "C12";
     g.maxdim = (int)rng.range(2, 5);
     g.maxf = (int)rng.range(1, 6);
     g.p_bad = rng.chance(0.25) ? 0 : rng.chance(0.5) ? 0.1 : 0.3;
     if (c11) g.p_bad = 0.45;
     if (c05 || c06) g.p_bad = rng.chance(0.5) ? 0 : 0.08;
+    if (c12) { g.p_bad = 0; plan.cfg["strict_enomem"] = 1; }
     bool faults = check.find("faulty") != std::string::npos;
     double p_fault = faults ? (rng.chance(0.5) ? 0.02 : 0.1) : 0;
     plan.cfg["callback"] = rng.chance(0.8) ? 1 : 0;
@@ -64,6 +66,7 @@ Plan array_gen(const std::string &check, const std::string &tier, uint64_t seed,
 	long cap = thorough ? 300 : 150;
 	nops = u < 0.5 ? rng.range(3, 15) : u < 0.85 ? rng.range(15, 60) : rng.range(60, cap);
 	if (c05) nops = rng.range(3, 40);
+	if (c12) nops = rng.range(4, 20);
     }
     if (c06) { array_gen_file_ops(rng, plan, g.m, check, thorough); return plan; }
 
